@@ -316,6 +316,31 @@ def integer_typed_state(c, iface, name):
     c.eq('chain_from_integer_typed_initial_point_equals_chain_from_float_typed_one', a, b, tol=1e-12)
 
 
+def offset_invariance(c, iface, name, C=-2000.0):
+    """a Metropolis-type kernel depends on the target only through DIFFERENCES of its log-density: adding a constant (here one far
+    outside the range where exp() is representable) leaves the chain unchanged, from the same random stream.  Bounded stand-in
+    (native runs): guards the places where the contracts treat machine arithmetic as mathematical (exp/log of large magnitudes)."""
+    import cuqi.experimental.mcmc as EX, cuqi.sampler as LG
+    from cuqi.distribution import UserDefinedDistribution
+    seed = int(c.real('seed', lo=0, hi=10 ** 6))
+    w = np.array([1.0, 0.5, 2.0])
+    def run(off):
+        tgt = UserDefinedDistribution(dim=3, logpdf_func=lambda x: float(-0.5 * np.sum(w * np.asarray(x) ** 2) + off), gradient_func=lambda x: -w * np.asarray(x))
+        np.random.seed(seed); x0 = np.array([0.3, -0.2, 0.1])
+        if iface == 'exp':
+            s = {'MH': lambda: EX.MH(tgt, scale=0.7, initial_point=x0), 'CWMH': lambda: EX.CWMH(tgt, scale=0.7, initial_point=x0),
+                 'MALA': lambda: EX.MALA(tgt, scale=0.3, initial_point=x0), 'NUTS': lambda: EX.NUTS(tgt, max_depth=5, step_size=0.9, initial_point=x0)}[name]()
+            s.sample(40); return np.array(s._samples, dtype=float)
+        s = {'MH': lambda: LG.MH(tgt, scale=0.7, x0=x0), 'CWMH': lambda: LG.CWMH(tgt, scale=0.7, x0=x0), 'MALA': lambda: LG.MALA(tgt, scale=0.3, x0=x0),
+             'NUTS': lambda: LG.NUTS(tgt, x0=x0, max_depth=5, adapt_step_size=0.9)}[name]()
+        return np.array(s.sample(40).samples.T, dtype=float)
+    import io, contextlib
+    with contextlib.redirect_stdout(io.StringIO()), contextlib.redirect_stderr(io.StringIO()):
+        a = run(0.0); b = run(C); d = run(-C / 4)
+    c.eq('chain_unchanged_by_a_large_negative_constant_in_the_log_density', b, a, tol=1e-6)
+    c.eq('chain_unchanged_by_a_large_positive_constant_in_the_log_density', d, a, tol=1e-6)
+
+
 def jobs(tier):
     J = []
     NF = [None, float('nan'), float('-inf')]
@@ -347,5 +372,8 @@ def jobs(tier):
         for name in names:
             J.append(Job(f'{"experimental" if iface == "exp" else "legacy"}.{name}:integer_typed_initial_point', lambda c, i=iface, nm=name: integer_typed_state(c, i, nm), 'B',
                          [f'{EXP if iface == "exp" else LEG}._{"cwmh" if name == "CWMH" else "mh"}:{name}.{"step" if iface == "exp" else "single_update"}'] if name in ('MH', 'CWMH') else [], nnum=2))
+    for iface in ('exp', 'leg'):
+        for name in ('MH', 'CWMH', 'MALA'):
+            J.append(Job(f'{"experimental" if iface == "exp" else "legacy"}.{name}:log_density_offset_invariance', lambda c, i=iface, nm=name: offset_invariance(c, i, nm), 'B', [], nnum=2))
     J.append(Job('lemma:L-MH:detailed_balance', lemma_mh, 'Pinf', []))
     return J
